@@ -2,6 +2,7 @@
   C16 — resolveType derives exactly the declared props and their requiredness.
 -/
 import VueJsx.Visitor
+import VueJsx.TypeSpec
 
 namespace VueJsx
 
@@ -328,5 +329,67 @@ example :
                         .partial_ (.paren (.lit [⟨"size", false, false, .mk .tsKeyword ["number"] []⟩, ⟨"aria-label", true, false, .mk .tsKeyword ["string"] []⟩]))]
     t.depth ≤ FUEL ∧ (t.members.map fun m => (m.name, !m.optional)) = [("id", true), ("size", false), ("aria-label", false)] := by
   constructor <;> decide
+
+/-! ### declaration merging and `extends` (fixes adae804, 349c0c5) -/
+
+/-- The specification's registry (TypeScript's declaration merging, written independently in `TypeSpec`) is the registry the
+    model's up-front collection computes. -/
+theorem C16_spec_registry_is_the_models (m : Node) : specRegistry m = collectTypes m {} := rfl
+
+/-- Declaration merging: a further declaration of an interface contributes its members AND its `extends` clause. -/
+theorem C16_merged_interface_keeps_extends (as as0 eas eas0 bas bas0 las las0 : List String) (id id0 tp tp0 : Node)
+    (ext ext0 members members0 : List Node) (st : St)
+    (h : lookupReg st.interfaces (identName id, identBind id)
+          = some (.mk .tsIface as0 [id0, tp0, .mk .list eas0 ext0, .mk .tsIfaceBody bas0 [.mk .list las0 members0]])) :
+    lookupReg (ifaceHook (.mk .tsIface as [id, tp, .mk .list eas ext, .mk .tsIfaceBody bas [.mk .list las members]]) st).interfaces
+        (identName id, identBind id)
+      = some (.mk .tsIface as0 [id0, tp0, .mk .list eas0 (ext0 ++ ext), .mk .tsIfaceBody bas0 [.mk .list las0 (members0 ++ members)]]) := by
+  simp only [ifaceHook, h]
+  revert h
+  generalize st.interfaces = l
+  intro h
+  induction l with
+  | nil => simp [lookupReg] at h
+  | cons p rest ih =>
+    simp only [lookupReg, List.map_cons, List.find?_cons] at h ⊢
+    by_cases hp : p.1 == (identName id, identBind id)
+    · simp [hp]
+    · simp only [hp] at h ⊢
+      simp only [Bool.false_eq_true, if_false]
+      have := ih (by simpa [lookupReg] using h)
+      simpa [lookupReg, hp] using this
+
+/-- one step of the `extends` fold -/
+def extendsStep (fuel : Nat) (acc : List Node × St) (parent : Node) : List Node × St :=
+  match parent with
+  | .mk .tsExprWithTypeArgs _ [.mk .ident ias _, targs] =>
+    let (more, st) := resolveElements fuel acc.2 (.mk .tsTypeRef [] [.mk .ident ias [], targs])
+    (acc.1 ++ more, st)
+  | _ => (acc.1, acc.2.err "Error: Unresolvable type.")
+
+/-- An interface is its own members followed by what each parent of its `extends` clause resolves to, in order. -/
+theorem C16_interface_extends (fuel : Nat) (st : St) (n b : String) (ir as ias eas bas las : List String) (iks : List Node) (tp id tps : Node)
+    (ext members : List Node)
+    (h1 : lookupReg st.typeAliases (n, b) = none)
+    (h2 : lookupReg st.interfaces (n, b) = some (.mk .tsIface ias [id, tps, .mk .list eas ext, .mk .tsIfaceBody bas [.mk .list las members]]))
+    (hg : st.typeGaveUp = false) :
+    resolveElements (fuel + 1) st (.mk .tsTypeRef as [.mk .ident (n :: b :: ir) iks, tp])
+      = ext.foldl (extendsStep fuel) (refineMembers members, st) := by
+  simp only [resolveElements, h1, h2, enterRes_ok _ _ hg]
+  congr 1
+
+/-- `extends Partial<B>`, `extends Pick<B, K>`: the parent is resolved as the type reference written in the clause,
+    type arguments included. -/
+theorem C16_extends_parent_with_arguments (fuel : Nat) (acc : List Node) (st : St) (as : List String) (ias : List String) (iks : List Node) (targs : Node) :
+    extendsStep fuel (acc, st) (.mk .tsExprWithTypeArgs as [.mk .ident ias iks, targs])
+      = (acc ++ (resolveElements fuel st (.mk .tsTypeRef [] [.mk .ident ias [], targs])).1,
+         (resolveElements fuel st (.mk .tsTypeRef [] [.mk .ident ias [], targs])).2) := by
+  simp [extendsStep]
+
+/-- `extends NS.B` (a parent that is not a plain identifier) is reported, never silently dropped. -/
+theorem C16_extends_qualified_reported (fuel : Nat) (acc : List Node) (st : St) (as mas : List String) (mks : List Node) (targs : Node) :
+    extendsStep fuel (acc, st) (.mk .tsExprWithTypeArgs as [.mk .member mas mks, targs])
+      = (acc, st.err "Error: Unresolvable type.") := by
+  simp [extendsStep]
 
 end VueJsx
